@@ -181,7 +181,7 @@ func scanScenarios() []scanScenario {
 
 func targetedScanJobs(r *rand.Rand, engines []string, quick bool) []concJob {
 	var jobs []concJob
-	variants := 3
+	variants := 4
 	for si, sc := range scanScenarios() {
 		bs := sc.boundaries()
 		for v := 0; v < variants; v++ {
@@ -214,6 +214,16 @@ func targetedScanJobs(r *rand.Rand, engines []string, quick bool) []concJob {
 							add(concOp("del", k, "w")) // the row the scan would read next
 						}
 						add(concOp("mut2", j.S(string(last)+sc.extend), fmt.Sprintf("new%d", b))) // a new row right behind the scan position
+					}
+					if v == 3 {
+						// a row further on is deleted, and a SECOND scan runs from start to end while the first one is still
+						// parked in its window: it must not see the deleted row (nor anything else that never existed during it)
+						if k, ok := at(b + 3); ok {
+							add(concOp("del", k, "w"))
+						}
+						add(bt.Op{Ev: "ReadRows", T: concTable, Rs: sc.rs, Now: j.N64(concNow)})
+						add(concOp("mut2", last, fmt.Sprintf("at%d", b)))
+						add(bt.Op{Ev: "ReadRows", T: concTable, Rs: sc.rs, Now: j.N64(concNow)})
 					}
 					if v == 0 {
 						if k, ok := at(b + 2); ok {
